@@ -5,6 +5,7 @@
 //
 // op line:  run <chain> <stop> <class> <n> => <acc> <stopres> <census> <outs> <late> <nodeerr>
 //
+//	n       = number of points written: a number, or <k>c+<m> = k*defaultEdgeBufferSize + m
 //	chain   = node kinds after the implicit `stream` source, comma separated:
 //	          from | where | post | alert | influx:<B> | udf | fail:<K> | loop
 //	stop    = task (TaskMaster.StopTask) | delete (DeleteTask) | close (TaskMaster.Close)
@@ -255,8 +256,70 @@ func runCase(chainS, stopKind, class string, n int, stopBound time.Duration) (re
 		}
 		return s + progress()
 	}
-	if class == "drained" || class == "gated" {
-		settle(stats, 4*time.Millisecond, 4, 10*time.Second)
+	// edgesEmpty: every accepted point has entered the source edge and every edge of the chain has emitted
+	// what it collected (edge statistics of the real task); only meaningful while no node has failed.
+	edgesEmpty := func() bool {
+		es, err := t.TM.ExecutionStats(taskID)
+		if err != nil {
+			return false
+		}
+		type ce struct{ c, e int64 }
+		byIdx := map[int]ce{}
+		for name, ns := range es.NodeStats {
+			i := len(name)
+			for i > 0 && name[i-1] >= '0' && name[i-1] <= '9' {
+				i--
+			}
+			idx, err := strconv.Atoi(name[i:])
+			if err != nil {
+				return false
+			}
+			c, _ := ns["collected"].(int64)
+			e, _ := ns["emitted"].(int64)
+			byIdx[idx] = ce{c, e}
+		}
+		if byIdx[0].c != int64(res.acc) {
+			return false
+		}
+		for i := 0; i+1 < len(byIdx); i++ {
+			if byIdx[i].e != byIdx[i+1].c {
+				return false
+			}
+		}
+		return true
+	}
+	waitClass := class
+	if class == "gated" {
+		// without an output that blocks the pipeline the gated state is the drained state
+		blocking := false
+		for _, ns := range chain {
+			if ns.kind == "post" || ns.kind == "influx" {
+				blocking = true
+			}
+		}
+		if !blocking {
+			waitClass = "drained"
+		}
+	}
+	switch waitClass {
+	case "drained":
+		// stop only after everything was handed over: edges empty and no more progress; a chain with a failed
+		// node never gets empty edges, there a long quiet period decides
+		quiet, last := 0, int64(-1)
+		for start := time.Now(); time.Since(start) < 15*time.Second; {
+			v := stats()
+			if v == last {
+				quiet++
+			} else {
+				quiet, last = 0, v
+			}
+			if (quiet >= 3 && edgesEmpty()) || quiet >= 60 {
+				break
+			}
+			time.Sleep(4 * time.Millisecond)
+		}
+	case "gated":
+		settle(stats, 5*time.Millisecond, 10, 10*time.Second)
 	}
 
 	tim("settled")
@@ -338,6 +401,18 @@ func opLine(chain, stop, class string, n int) string {
 	return fmt.Sprintf("run %s %s %s %d", chain, stop, class, n)
 }
 
+// parseN reads the number of points: a plain number, or `<k>c+<m>` = k edge buffers + m (corpus witnesses that
+// must keep their meaning when defaultEdgeBufferSize changes).
+func parseN(t string) (int, bool) {
+	if i := strings.Index(t, "c+"); i > 0 {
+		k, err1 := strconv.Atoi(t[:i])
+		m, err2 := strconv.Atoi(t[i+2:])
+		return k*edgeCap + m, err1 == nil && err2 == nil
+	}
+	v, err := strconv.Atoi(t)
+	return v, err == nil
+}
+
 func execLine(line string, bound time.Duration) string {
 	if i := strings.Index(line, " => "); i >= 0 {
 		line = line[:i]
@@ -346,7 +421,10 @@ func execLine(line string, bound time.Duration) string {
 	if len(f) != 5 || f[0] != "run" {
 		return line + " => badline"
 	}
-	n, _ := strconv.Atoi(f[4])
+	n, ok := parseN(f[4])
+	if !ok {
+		return line + " => badline"
+	}
 	var out string
 	func() {
 		defer func() {
